@@ -731,3 +731,20 @@ Proof.
     pose proof (loop_noerr_class l [] o (Forall_nil _) Hok Ho (or_introl (Nat.le_0_l 1)) Hlen) as Hc.
     cbn [app] in Hc. rewrite (apc_of_class l Hc) in A. discriminate.
 Qed.
+
+(* ================================================================= groupByEqual agrees with = *)
+
+(* two keys: one group iff a = b is true, two groups iff it is false, an error iff = fails *)
+Theorem group_eq_pairs : forall a b,
+  group_eq_model [a; b] = match veq a b with
+                          | Ok true => Ok 1%N | Ok false => Ok 2%N
+                          | Err t => Err t | Panic => Panic | OOF => OOF | Unsup => Unsup
+                          end.
+Proof.
+  intros a b. unfold group_eq_model. cbn [group_keys in_groups app]. unfold equal_fg.
+  destruct (veq a b) as [[|]| | | |]; reflexivity.
+Qed.
+
+Lemma group_eq_pairs_sym : forall a b, wf_keys a = true -> wf_keys b = true ->
+  group_eq_model [a; b] = group_eq_model [b; a].
+Proof. intros a b Ha Hb. rewrite !group_eq_pairs, (veq_sym a b Ha Hb). reflexivity. Qed.
